@@ -321,6 +321,7 @@ def run_avdtp_frag(case):
             orig = ch[i].write
             ch[i].write = lambda data, i=i, orig=orig: (frames[i].append(bytes(data)), orig(data))[1]
         want = [[], []]
+        allowed = [[], []]  # the intact form of a message that was sent with a fault (may surface, e.g. when only a duplicate trails it)
         label = 0
         for d, size, fault in case['msgs']:
             label = (label + 1) % 16
@@ -342,8 +343,11 @@ def run_avdtp_frag(case):
                 want[1 - d].append((label, 1, 1, payload))
             else:
                 frs = _avdtp_fragments(label, 1, 1, payload, peer_mtu)
+                intact_payload = payload
                 if len(frs) < 2:
-                    frs = _avdtp_fragments(label, 1, 1, payload + bytes(peer_mtu), peer_mtu)
+                    intact_payload = payload + bytes(peer_mtu)
+                    frs = _avdtp_fragments(label, 1, 1, intact_payload, peer_mtu)
+                allowed[1 - d].append((label, 1, 1, intact_payload))
                 sim.fault(f'frag_{fault}')
                 k = len(frs) // 2
                 if fault == 'drop':
@@ -373,9 +377,13 @@ def run_avdtp_frag(case):
                 lens = [len(m[3]) for m in missing]
                 sim.violation_once('frag-lost', f'avdtp:message-not-reassembled:{"after-broken-sequence" if faulty else "clean"}',
                                    f'{len(missing)} intact message(s) not delivered byte-identically (payload lengths {lens[:4]}, peer MTU {case["mtus"]})')
-            spurious = [g for g in got if g not in exp]
-            if spurious and not faulty:
-                sim.violation_once('frag-extra', 'avdtp:spurious-message:clean', f'{len(spurious)} unexpected message(s)')
+            spurious = [g for g in got if g not in exp and g not in allowed[i]]
+            if spurious:
+                # every injected fault breaks the sequence detectably (packet count or label): the broken message is discarded, never
+                # delivered as something nobody sent
+                kinds = sorted({m[2] for m in case['msgs'] if m[2]})
+                sim.violation_once('frag-extra', f'avdtp:spurious-message:{"after-" + "+".join(kinds) if faulty else "clean"}',
+                                   f'{len(spurious)} message(s) delivered that nobody sent (lengths {[len(g[3]) for g in spurious][:4]})')
         sim.trace.shape(tuple(case['mtus']), tuple((m[0], m[1] // 40, m[2]) for m in case['msgs']))
         return result(sim, nontrivial=sim.probes['fragment_count>1'] > 0 or faulty)
     finally:
